@@ -43,6 +43,10 @@ func (r *ReaderAt) Len() int { return len(r.data) }
 func (r *ReaderAt) At(i int) byte { return r.data[i] }
 
 func (r *ReaderAt) ReadAt(p []byte, off int64) (int, error) {
+	// reading a mapping interacts with whoever may unmap it (Close by another task): a scheduling point
+	if r.w != nil {
+		simrt.Yield("mmap:read")
+	}
 	if r.data == nil {
 		return 0, errors.New("mmap: closed")
 	}
